@@ -66,6 +66,8 @@ func main() {
 		os.Exit(cmdCheck(os.Args[2:]))
 	case "run":
 		os.Exit(cmdRun(os.Args[2:]))
+	case "validate":
+		os.Exit(cmdValidate(os.Args[2:]))
 	default:
 		fmt.Fprintln(os.Stderr, "unknown command", os.Args[1])
 		os.Exit(2)
@@ -181,6 +183,8 @@ func printHarnessResult(hr *harnessResult) {
 	}
 }
 
+var translatorValidation map[string]interface{}
+
 func cmdCheck(args []string) int {
 	fs := flag.NewFlagSet("check", flag.ExitOnError)
 	repo := fs.String("repo", "/repo", "repository")
@@ -231,6 +235,10 @@ func cmdCheck(args []string) int {
 		return 2
 	}
 	loadTime := time.Since(start)
+	translatorValidation = ensureValidation(*repo, vd)
+	if n, _ := translatorValidation["different_verdict"].(int); n > 0 {
+		fmt.Printf("TRANSLATOR-VALIDATION: the interpreter and go test disagree on %d repository tests: %v\n", n, translatorValidation["not_agreeing"])
+	}
 	timeout := 10000
 	sampleN := 40
 	if *tier == "thorough" {
@@ -296,6 +304,9 @@ func cmdCheck(args []string) int {
 	if err := writeEvidence(vd, prop, *tier, seed, &spec, results, time.Since(start), loadTime, nviol); err != nil {
 		fmt.Fprintln(os.Stderr, "evidence:", err)
 		return 2
+	}
+	if n, _ := translatorValidation["different_verdict"].(int); n > 0 && exit == 0 {
+		exit = 2 // the interpreter disagrees with go test on the repository's own tests: nothing it says about this tree is trusted
 	}
 	if exit == 0 {
 		fmt.Printf("OK property=%s tier=%s harnesses=%d wall=%.1fs\n", prop, *tier, len(results), time.Since(start).Seconds())
